@@ -37,3 +37,6 @@ theories/L2/InstWake.vos theories/L2/InstWake.vok theories/L2/InstWake.required_
 theories/L2/WakeLem.vo theories/L2/WakeLem.glob theories/L2/WakeLem.v.beautified theories/L2/WakeLem.required_vo: theories/L2/WakeLem.v theories/L2/Model.vo theories/L2/Base.vo theories/L2/Own.vo theories/L2/Jobs.vo theories/L2/Wake.vo theories/L2/WakeInv.vo
 theories/L2/WakeLem.vio: theories/L2/WakeLem.v theories/L2/Model.vio theories/L2/Base.vio theories/L2/Own.vio theories/L2/Jobs.vio theories/L2/Wake.vio theories/L2/WakeInv.vio
 theories/L2/WakeLem.vos theories/L2/WakeLem.vok theories/L2/WakeLem.required_vos: theories/L2/WakeLem.v theories/L2/Model.vos theories/L2/Base.vos theories/L2/Own.vos theories/L2/Jobs.vos theories/L2/Wake.vos theories/L2/WakeInv.vos
+theories/L2/Shape.vo theories/L2/Shape.glob theories/L2/Shape.v.beautified theories/L2/Shape.required_vo: theories/L2/Shape.v theories/L2/Model.vo theories/L2/Base.vo theories/L2/Own.vo
+theories/L2/Shape.vio: theories/L2/Shape.v theories/L2/Model.vio theories/L2/Base.vio theories/L2/Own.vio
+theories/L2/Shape.vos theories/L2/Shape.vok theories/L2/Shape.required_vos: theories/L2/Shape.v theories/L2/Model.vos theories/L2/Base.vos theories/L2/Own.vos
